@@ -22,6 +22,10 @@ func dialer(vnet *kfake.VirtualNetwork, refuse *atomic.Bool) func(ctx context.Co
 
 // slowPartitioner sleeps (virtual time) inside the user partitioner so that a Produce can be between its
 // closed-client check and buffering while Close runs.
+// slowSleptMs totals the (virtual) time partitioner calls have spent sleeping; the driver reports how much of it fell
+// into a Close, because Close cannot return before user code it is waiting for has returned.
+var slowSleptMs atomic.Int64
+
 type slowPartitioner struct {
 	inner kgo.Partitioner
 	ms    *atomic.Int64
@@ -42,6 +46,7 @@ func (s slowTopicPartitioner) RequiresConsistency(r *kgo.Record) bool {
 func (s slowTopicPartitioner) Partition(r *kgo.Record, n int) int {
 	if d := s.ms.Load(); d > 0 {
 		time.Sleep(time.Duration(d) * time.Millisecond)
+		slowSleptMs.Add(d) // user-code time: Close legitimately waits for a partitioner call in progress
 	}
 	return s.inner.Partition(r, n)
 }
